@@ -111,65 +111,10 @@ def _rest(ck, repo):
         from .c01 import _completion_chain
         _completion_chain(ck, repo)
     with ck.rule("R3"):
-        f = repo.func("tartiflette/coercers/outputs/non_null_coercer.py", "non_null_coercer")
-        fv = FuncView(f)
-        p = f.positional_params
-        ic = [c for c in fv.calls() if isinstance(c.func, ast.Name) and c.func.id == p[5]]
-        ok = len(ic) == 1 and fv.is_awaited(ic[0]) and [unparse(a) for a in ic[0].args] == p[:5]
-        ck.ob("non_null_coercer awaits the inner coercer once with the same operands", ok, f, ic[0] if ic else f.node, construct="nonnull:inner")
-        st = fv.stmt_of(ic[0]) if ic else None
-        out = unparse(st.targets[0]) if isinstance(st, ast.Assign) else None
-        rs = fv.raises()
-        ck.ob("non_null_coercer raises exactly when the inner result is None",
-              len(rs) == 1 and out is not None and fv.guarded(rs[0], lambda t: t == f"{out} is None", "T"), f, rs[0] if rs else f.node,
-              construct="nonnull:raise-guard")
-        rets = fv.returns()
-        ck.ob("non_null_coercer returns the inner result otherwise",
-              len(rets) == 1 and out is not None and unparse(rets[0].value) == out and
-              (fv.guarded(rets[0], lambda t: t == f"{out} is None", "F")), f, rets[0] if rets else f.node, construct="nonnull:return-guard")
-        atoms = Atoms({f"{out} is None": "is_null"})
-        for isnull in (True, False):
-            classes = set()
-            for tr in fv.cfg.simulate(lambda n, env: evaluate(n.ast, env, {"is_null": isnull}, atoms)):
-                last = tr.last_stmt()
-                if tr.exit_kind == "raise_exit":
-                    classes.add("raise")
-                else:
-                    classes.add("return " + (unparse(last.ast.value) if isinstance(last.ast, ast.Return) else "None"))
-            want = {"raise"} if isnull else {f"return {out}"}
-            ck.ob(f"non_null_coercer table: inner result is None = {isnull}", classes == want, f, f.node,
-                  construct=f"table:is_null={isnull}", detail=f"got {sorted(classes)}" + atoms.note())
+        output_non_null_wrapper(ck, repo)
 
     with ck.rule("R4"):
-        w = repo.func("tartiflette/coercers/outputs/null_coercer.py", "null_coercer_wrapper")
-        inner = repo.func("tartiflette/coercers/outputs/null_coercer.py", "null_coercer_wrapper.wrapper")
-        iv = FuncView(inner)
-        first = inner.positional_params[0]
-        atoms = Atoms({f"{first} is None": "is_null"})
-        cp = w.positional_params[0]
-        for isnull in (True, False):
-            classes = set()
-            for tr in iv.cfg.simulate(lambda n, env: evaluate(n.ast, env, {"is_null": isnull}, atoms)):
-                last = tr.last_stmt()
-                called = any(any(isinstance(c, ast.Call) and isinstance(c.func, ast.Name) and c.func.id == cp for c in ast.walk(n.ast)) for n in tr.stmts())
-                rv = unparse(last.ast.value) if isinstance(last.ast, ast.Return) else "None"
-                classes.add(("calls-coercer" if called else "no-call") + "->" + rv)
-            want = {"no-call->None"} if isnull else {f"calls-coercer->await {cp}({first}, *args, **kwargs)"}
-            ck.ob(f"null_coercer_wrapper table: result is None = {isnull}", classes == want, inner, inner.node,
-                  construct=f"table:is_null={isnull}", detail=f"got {sorted(classes)}" + atoms.note())
-        rets = FuncView(w).returns()
-        ck.ob("null_coercer_wrapper returns the wrapper", len(rets) == 1 and unparse(rets[0].value) == inner.name, w, w.node, construct="nullwrap:return")
-        decorated = []
-        for rel, name in (("scalar_coercer.py", "scalar_coercer"), ("enum_coercer.py", "enum_coercer"), ("object_coercer.py", "object_coercer"),
-                          ("abstract_coercer.py", "abstract_coercer"), ("list_coercer.py", "list_coercer_sequentially"),
-                          ("list_coercer.py", "list_coercer_concurrently")):
-            g = repo.func("tartiflette/coercers/outputs/" + rel, name)
-            res = [repo.resolve_name(g.module, d) for d in decorator_names(g)]
-            ok = "tartiflette.coercers.outputs.null_coercer.null_coercer_wrapper" in res
-            decorated.append(ok)
-            ck.ob(f"outputs.{name} is wrapped by null_coercer_wrapper (null completes to null without coercion)", ok, g, g.node,
-                  construct=f"nullwrap:{name}")
-        ck.count("output_coercers_null_wrapped", sum(decorated), 6)
+        _output_null_wrapper(ck, repo)
 
     with ck.rule("R5"):
         from .c03 import list_guard
@@ -240,10 +185,80 @@ def _rest(ck, repo):
 
     with ck.rule("R7"):
         _error_records(ck, repo)
+        errors_located_by_the_funnel_only(ck, repo)
 
     with ck.rule("R8"):
         _handler_census(ck, repo)
 
+
+
+
+def output_non_null_wrapper(ck, repo):
+    """The output non-null wrapper judges what the *inner coercer answered* (type-level output hooks run in there and may replace the
+    value), and nothing before it (shared with C13.R4: every governed value goes through its hooks, a null at a T! position too)."""
+    if True:
+        f = repo.func("tartiflette/coercers/outputs/non_null_coercer.py", "non_null_coercer")
+        fv = FuncView(f)
+        p = f.positional_params
+        ic = [c for c in fv.calls() if isinstance(c.func, ast.Name) and c.func.id == p[5]]
+        ok = len(ic) == 1 and fv.is_awaited(ic[0]) and [unparse(a) for a in ic[0].args] == p[:5]
+        ck.ob("non_null_coercer awaits the inner coercer once with the same operands", ok, f, ic[0] if ic else f.node, construct="nonnull:inner")
+        st = fv.stmt_of(ic[0]) if ic else None
+        out = unparse(st.targets[0]) if isinstance(st, ast.Assign) else None
+        rs = fv.raises()
+        ck.ob("non_null_coercer raises exactly when the inner result is None",
+              len(rs) == 1 and out is not None and fv.guarded(rs[0], lambda t: t == f"{out} is None", "T"), f, rs[0] if rs else f.node,
+              construct="nonnull:raise-guard")
+        rets = fv.returns()
+        ck.ob("non_null_coercer returns the inner result otherwise",
+              len(rets) == 1 and out is not None and unparse(rets[0].value) == out and
+              (fv.guarded(rets[0], lambda t: t == f"{out} is None", "F")), f, rets[0] if rets else f.node, construct="nonnull:return-guard")
+        atoms = Atoms({f"{out} is None": "is_null"})
+        for isnull in (True, False):
+            classes = set()
+            for tr in fv.cfg.simulate(lambda n, env: evaluate(n.ast, env, {"is_null": isnull}, atoms)):
+                last = tr.last_stmt()
+                if tr.exit_kind == "raise_exit":
+                    classes.add("raise")
+                else:
+                    classes.add("return " + (unparse(last.ast.value) if isinstance(last.ast, ast.Return) else "None"))
+            want = {"raise"} if isnull else {f"return {out}"}
+            ck.ob(f"non_null_coercer table: inner result is None = {isnull}", classes == want, f, f.node,
+                  construct=f"table:is_null={isnull}", detail=f"got {sorted(classes)}" + atoms.note())
+
+
+
+def _output_null_wrapper(ck, repo):
+    if True:
+        w = repo.func("tartiflette/coercers/outputs/null_coercer.py", "null_coercer_wrapper")
+        inner = repo.func("tartiflette/coercers/outputs/null_coercer.py", "null_coercer_wrapper.wrapper")
+        iv = FuncView(inner)
+        first = inner.positional_params[0]
+        atoms = Atoms({f"{first} is None": "is_null"})
+        cp = w.positional_params[0]
+        for isnull in (True, False):
+            classes = set()
+            for tr in iv.cfg.simulate(lambda n, env: evaluate(n.ast, env, {"is_null": isnull}, atoms)):
+                last = tr.last_stmt()
+                called = any(any(isinstance(c, ast.Call) and isinstance(c.func, ast.Name) and c.func.id == cp for c in ast.walk(n.ast)) for n in tr.stmts())
+                rv = unparse(last.ast.value) if isinstance(last.ast, ast.Return) else "None"
+                classes.add(("calls-coercer" if called else "no-call") + "->" + rv)
+            want = {"no-call->None"} if isnull else {f"calls-coercer->await {cp}({first}, *args, **kwargs)"}
+            ck.ob(f"null_coercer_wrapper table: result is None = {isnull}", classes == want, inner, inner.node,
+                  construct=f"table:is_null={isnull}", detail=f"got {sorted(classes)}" + atoms.note())
+        rets = FuncView(w).returns()
+        ck.ob("null_coercer_wrapper returns the wrapper", len(rets) == 1 and unparse(rets[0].value) == inner.name, w, w.node, construct="nullwrap:return")
+        decorated = []
+        for rel, name in (("scalar_coercer.py", "scalar_coercer"), ("enum_coercer.py", "enum_coercer"), ("object_coercer.py", "object_coercer"),
+                          ("abstract_coercer.py", "abstract_coercer"), ("list_coercer.py", "list_coercer_sequentially"),
+                          ("list_coercer.py", "list_coercer_concurrently")):
+            g = repo.func("tartiflette/coercers/outputs/" + rel, name)
+            res = [repo.resolve_name(g.module, d) for d in decorator_names(g)]
+            ok = "tartiflette.coercers.outputs.null_coercer.null_coercer_wrapper" in res
+            decorated.append(ok)
+            ck.ob(f"outputs.{name} is wrapped by null_coercer_wrapper (null completes to null without coercion)", ok, g, g.node,
+                  construct=f"nullwrap:{name}")
+        ck.count("output_coercers_null_wrapped", sum(decorated), 6)
 
 def extract_rule(ck, repo):
     """Failures travel between the sequential and the concurrent paths as MultipleException values only (shared with C08.R3)."""
@@ -515,3 +530,26 @@ def located_error_terms(ck, repo):
                                 why = f"member answered with coerce_value {o.attrs.get('coerce_value') if isinstance(o, RecV) else o!r}; expected {want!r}"
                     ck.ob(f"located_error [{tag}]: each member located once, bound with exactly what it lacks", bool(ok), le, le.node, construct=f"located:terms:{tag}", detail=why or f"got {got!r}")
     ck.count("located_error_shapes", n, 90)
+
+
+def errors_located_by_the_funnel_only(ck, repo):
+    """An error built while a value is completed carries no path of its own: the path of the *position* that failed - list
+    indexes included - is known to the completion funnel only (handle_field_error, from the Path it was handed), and
+    located_error never overwrites a path an error already has.  So no error constructor called from the output coercers, the
+    resolver factory or the executor is given a `path=` operand (info.path is the field's path, not the item's)."""
+    n, bad = 0, []
+    for f in repo.all_funcs():
+        rel = f.module.relpath
+        if not rel.startswith(("tartiflette/coercers/outputs/", "tartiflette/resolver/", "tartiflette/execution/", "tartiflette/types/helpers/")):
+            continue
+        if f.name in ("handle_field_error",):
+            continue
+        for c in FuncView(f).calls(["graphql_error_from_nodes", "TartifletteError", "to_graphql_error", "GraphQLError"]):
+            n += 1
+            if arg(c, None, "path") is not None:
+                bad.append((f, c))
+    for f, c in bad:
+        ck.ob(f"{f.qualname}: the error built here is located by the completion funnel, not by itself", False, f, c, construct=f"located:own-path:{f.qualname}",
+              detail=f"`path={unparse(arg(c, None, 'path'))}`: an error that already has a path keeps it - the failing list index or nested position is lost")
+    ck.ob("no error constructor in the completion code is given a path of its own", not bad, where="tartiflette/coercers/outputs/", construct="located:own-path", evals=n)
+    ck.count("completion_error_constructions", n, 4)
